@@ -406,8 +406,40 @@ func faultOracle(s *Spec, keys [][]byte, stats *faultStats, pairs bool) func(w *
 					site = faultSite(wB.VS)
 				}
 				img := wB.VS.Clone()
+				// reported success under a fault: (a) never when the failing call was a write; (b) the live
+				// instance must then read like the post-state
+				var liveV *Violation
+				if pv == nil && opErr == nil && faulted {
+					if k := wB.VS.LastFaultKind; k.IsWrite() {
+						liveV = viol("fault-write", "%s with storage call %d of %d (%s, inside %s) failing was reported as successful although a write failed", op, i, n, k, site)
+						liveV.Facts = map[string]any{"op": opNames[op.Kind], "site": site, "symptom": "write-fault-reported-success", "class": "other", "reported": "reported success"}
+					} else {
+						wB.M = postM.Clone()
+						wB.VS.FailAt = nil
+						for _, o := range []Oracle{oracleReads(probes), oracleFast(probes)} {
+							o := o
+							if vv := safely("oracle "+o.Name, func() *Violation { return o.Fn(wB) }); vv != nil {
+								liveV = viol("fault-write", "%s with storage call %d of %d (inside %s) failing reported success, but the live instance does not read like the state after the operation: %s: %s", op, i, n, site, vv.Oracle, vv.Detail)
+								liveV.Facts = map[string]any{"op": opNames[op.Kind], "site": site, "symptom": "live-instance-after-success", "class": "other", "reported": "reported success"}
+								break
+							}
+						}
+					}
+				}
 				wB.Dead = true
 				wB.Close()
+				if liveV != nil {
+					if survey {
+						stats.mu.Lock()
+						stats.sites[fmt.Sprintf("%s@%s/%s", opNames[op.Kind], site, liveV.Facts["symptom"])]++
+						stats.mu.Unlock()
+						continue
+					}
+					if stepOver(s, hist, liveV) {
+						continue
+					}
+					return liveV
+				}
 				if pv != nil {
 					pv.Detail = fmt.Sprintf("%s with storage call %d failing: %s", op, i, pv.Detail)
 					pv.Facts = map[string]any{"op": opNames[op.Kind], "site": site, "symptom": "panic"}
